@@ -568,7 +568,12 @@ def check(ctx, F, rule):
         dup = sorted({c for c in gs if gs.count(c) > 1})
         missing = [c for c in es if c not in gs]
         extra = [c for c in gs if c not in es]
-        if dup or missing or extra:
+        if not got:
+            ok = False
+            ctx.violation(rule, f"{fn.path}|{v}", f"fail closed: no CardPair::new(Card::new(rank, suit), Card::new(rank, suit)) found for {v} in "
+                          f"{fn.path} (the combos are built somewhere this rule does not look: a closure handed to a std adaptor, "
+                          f"a generic helper)", fn=fn.path, file=fn.file, line=fn.line, construct=f"combo list of RankPair::{v}")
+        elif dup or missing or extra:
             ok = False
             ctx.violation(rule, f"{fn.path}|{v}", f"{v} combos: missing {missing}, extra {extra}, duplicated {dup} (cards written as (rank field, suit))",
                           fn=fn.path, file=fn.file, line=fn.line, construct=f"combo list of RankPair::{v}")
